@@ -1,5 +1,5 @@
 (** Proofs about Slices.v (C14, clauses 2-4). *)
-From Coq Require Import List NArith ZArith Bool Lia FinFun.
+From Coq Require Import List NArith ZArith Bool Lia FinFun Permutation.
 From PKO Require Import Util Base Owner Api Phase ObjectSet ObjectSetProofs Chunk ChunkProofs Slices.
 Import ListNotations.
 Local Open Scope N_scope.
@@ -890,7 +890,40 @@ Section Equiv.
       unfold sliced_pass_fixed in H. unfold sliced_pass. rewrite Hf in *. unfold is_going in Hgo.
       destruct (cond_true (os_conds mem) CArchived); [exact H|]. cbn in Hgo. now rewrite Hgo in *.
   Qed.
+
+  (** Teardown of the repaired wrapper needs no hypothesis on the slices: a referenced slice that does not exist
+      contributes nothing and does not stop the loading of the later ones, so a deleted / archived ObjectSet is
+      torn down exactly like the inline ObjectSet that carries the objects of the slices that exist. *)
+  Theorem sliced_fixed_equiv_teardown x kind ns name mem x' evs r :
+    find_set (sw_sets (xw_sw x)) kind ns name = Some mem ->
+    is_going mem = true ->
+    sliced_pass_fixed force x kind ns name = (x', evs, r) ->
+    objectset_pass force (inline_of x) kind ns name = (inline_of x', erase_slice_events evs, r) /\
+    xw_refs x' = xw_refs x /\ xw_sl x' = xw_sl x.
+  Proof.
+    intros Hf Hgo. unfold sliced_pass_fixed, objectset_pass. rewrite inline_of_find, Hf. cbn [option_map].
+    change (os_conds (inline_set _ _ mem)) with (os_conds mem). change (os_deleting (inline_set _ _ mem)) with (os_deleting mem).
+    change (os_life (inline_set _ _ mem)) with (os_life mem).
+    unfold is_going in Hgo. destruct (cond_true (os_conds mem) CArchived); [discriminate|]. cbn in Hgo. rewrite Hgo.
+    unfold inline_of at 1. change (inline_sw ?s ?t) with (Rw (inline_phases s t)).
+    rewrite (deletion_pass_Rw_same _ (inline_phases_stable _ _) force).
+    destruct (deletion_pass force (xw_sw x) _) as [[sw' e'] r']. unfold mk_x.
+    intros H. injection H as <- <- <-. cbn [xw_refs xw_sl xw_sw]. unfold lift. rewrite erase_lift. repeat split.
+  Qed.
 End Equiv.
+
+(** What the teardown handler loads for a phase: the inline objects, then the objects of the referenced slices
+    that exist, in the order they are listed. *)
+Definition existing_slices (st : slstore) (ns : N) (names : list N) : list slice :=
+  flat_map (fun n => match sl_lookup (ns, n) st with Some s => [s] | None => [] end) names.
+
+Lemma inline_phase_existing st ns sp :
+  ph_objects (inline_phase st ns sp) = sp_objects sp ++ flat_map sl_objects (existing_slices st ns (sp_slices sp)).
+Proof.
+  unfold inline_phase, existing_slices. cbn [ph_objects]. f_equal.
+  induction (sp_slices sp) as [|n r IH]; [reflexivity|]. cbn [flat_map]. rewrite flat_map_app, IH. f_equal.
+  unfold slice_objects. destruct (sl_lookup (ns, n) st); cbn; [now rewrite app_nil_r|reflexivity].
+Qed.
 
 (** * A slice that cannot be loaded *)
 
@@ -1147,3 +1180,31 @@ Corollary sliced_equiv_teardown_refuted :
     slices_exist (xs_store (xw_sl x)) (xw_refs x) mem = true /\
     pass_events (sliced_pass false x kind ns name) <> ipass_events (objectset_pass false (inline_of x) kind ns name).
 Proof. exists (wit_world true LActive), 1, 1, 10, (wit_set true LActive). vm_compute. repeat split. discriminate. Qed.
+
+(** * The ObjectDeployment controller's view of a sliced revision *)
+
+Lemma flat_map_app_perm {A B} (f g : A -> list B) l :
+  Permutation (flat_map (fun x => f x ++ g x) l) (flat_map f l ++ flat_map g l).
+Proof.
+  induction l as [|x l IH]; cbn; [constructor|].
+  rewrite <- !app_assoc. apply Permutation_app_head.
+  eapply Permutation_trans; [apply Permutation_app_head; exact IH|]. apply Permutation_app_swap_app.
+Qed.
+
+(** If every referenced slice exists the archive reconciler sees exactly the objects of the ObjectSet with the
+    slices inlined (as a multiset: the inline objects of all phases come first). *)
+Theorem deploy_objects_inline st t s l :
+  deploy_objects st t s = Some l ->
+  Permutation l (map (spec_key (inline_set st t s)) (all_objects (inline_set st t s))).
+Proof.
+  unfold deploy_objects. destruct (slices_exist st t s); [|discriminate]. intros H. injection H as <-.
+  rewrite <- map_app. change (spec_key (inline_set st t s)) with (spec_key s). apply Permutation_map.
+  unfold all_objects, inline_set, inline_phases. cbn [os_phases set_phases os_id].
+  assert (Hfm : forall l, flat_map ph_objects (map (inline_phase st (oi_ns (os_id s))) l) =
+                           flat_map (fun sp => sp_objects sp ++ flat_map (slice_objects st (oi_ns (os_id s))) (sp_slices sp)) l)
+    by (induction l as [|x l IH]; cbn; [reflexivity|now rewrite IH]).
+  rewrite Hfm. apply Permutation_sym. apply flat_map_app_perm.
+Qed.
+
+Lemma deploy_objects_none st t s : deploy_objects st t s = None <-> slices_exist st t s = false.
+Proof. unfold deploy_objects. destruct (slices_exist st t s); split; congruence. Qed.
